@@ -464,6 +464,10 @@ func TestC13(t *testing.T) {
 		for i := 0; i < n; i++ {
 			yield(randomGroup(rnd, i))
 		}
+		// long components (length fields, buffers): one group per key space
+		for _, sp := range []string{"conv", "index", "recv"} {
+			yield(longGroup(rnd, sp))
+		}
 	}
 	kf := func(c vt.Case) string { return "" }
 	vt.Run(t, gen, kf, func(c vt.Case) vt.Event {
@@ -692,4 +696,48 @@ func randomGroup(r *rand.Rand, i int) vt.Case {
 		add(map[string]any{"kind": "S", "blk": blk(), "id": str(strconv.FormatUint(id, 10))})
 	}
 	return vt.Case{"space": "index", "src": "random", "model": true, "items": items}
+}
+
+// longGroup: names / values of lengths around 255, 256, 257, 300, 511, 512, 65535+, and for every long
+// name the adversarial re-cuts name2 = name1[:k], value2 = name1[k:] ++ value1 (k = len mod 256,
+// len mod 65536, 1, len-1, len/2, 255, 256): a builder that stores a length in too few digits or
+// bytes conflates exactly these. Strings are given as plain strings (the model does not read the group).
+func longGroup(r *rand.Rand, space string) vt.Case {
+	items := []any{}
+	lens := []int{255, 256, 257, 300, 511, 512, 65535, 65536 + 255 + r.Intn(3)}
+	alpha := []string{"a", "b", "c", "_", "x"}
+	mk := func(n int) string {
+		var sb strings.Builder
+		for sb.Len() < n {
+			sb.WriteString(alpha[r.Intn(len(alpha))])
+		}
+		return sb.String()[:n]
+	}
+	for _, L := range lens {
+		name1, value1 := mk(L), mk(r.Intn(3))
+		if space == "index" {
+			name1 = name1[:L/2] + ":" + name1[L/2+1:] // a ':' inside: the escaped form of the postings key
+		}
+		tn := typeNames[r.Intn(4)]
+		cuts := map[int]bool{L % 256: true, L % 65536: true, 1: true, L - 1: true, L / 2: true, 255: true, 256: true}
+		emit := func(n, v string) {
+			switch space {
+			case "conv":
+				items = append(items, map[string]any{"kind": "MC", "name": n, "type": tn, "value": v})
+			case "recv":
+				items = append(items, map[string]any{"kind": "RP", "blk": "B1", "ms": []any{map[string]any{"name": n, "type": tn, "value": v}}})
+			default:
+				items = append(items, map[string]any{"kind": "P", "blk": "B1", "name": n, "value": v, "comp": []any{"dss"}})
+				items = append(items, map[string]any{"kind": "EP", "blk": "B1", "comp": []any{"dss"}, "ms": []any{map[string]any{"name": n, "type": tn, "value": v}}})
+			}
+		}
+		emit(name1, value1)
+		emit(value1+"z", name1) // long value, short name
+		for k := range cuts {
+			if k >= 1 && k < L {
+				emit(name1[:k], name1[k:]+value1)
+			}
+		}
+	}
+	return vt.Case{"space": space, "src": "long", "model": false, "items": items}
 }
